@@ -21,7 +21,8 @@ RULE = ('E2: every frame script with at most F frames in total spread over '
 INCS = (0, 0.5, 1, 3)
 CONT = ('nothing', 'switch', 'loop_switch', 'clear_handle')
 TERM = ('quit', 'quit_loop_world', 'quit_loop_default', 'runtime',
-        'quit_loop_handler_raises')
+        'quit_loop_handler_raises', 'switch_quit_on_entry',
+        'switch_boom_on_entry')
 
 
 class Horizon(BaseException):
@@ -58,7 +59,7 @@ class SP(desper.Processor):
         if action == 'quit_loop_default':
             desper.quit_loop()
         if action == 'switch':
-            other = envx.handles['B' if self.label == 'A' else 'A']
+            other = envx.handles['B' if self.label[0] == 'A' else 'A']
             raise desper.SwitchWorld(other)
         if action == 'clear_handle':
             # the cache of the current handle is dropped while its world
@@ -72,11 +73,20 @@ class SP(desper.Processor):
         if action == 'loop_switch':
             # the public Loop.switch called directly: no exception, the
             # frame goes on, the next iteration processes the other world
-            other = envx.handles['B' if self.label == 'A' else 'A']
+            other = envx.handles['B' if self.label[0] == 'A' else 'A']
             envx.loop.switch(other)
         if action == 'runtime':
             envx.boom = Boom('frame failure')
             raise envx.boom
+        if action in ('switch_quit_on_entry', 'switch_boom_on_entry'):
+            # the other world holds an event; its listener quits (or fails)
+            # when the loop releases it while entering that world, i.e.
+            # while the loop is handling the switch request
+            other = envx.handles['B' if self.label[0] == 'A' else 'A']
+            target = other()
+            target.dispatch_enabled = False
+            target.dispatch('enter', action)
+            raise desper.SwitchWorld(other)
 
 
 class SP0(SP):
@@ -94,11 +104,26 @@ class SP2(SP):
     priority = 2
 
 
-@desper.event_handler('on_quit')
+class FalsyWorld(desper.World):
+    """A legal World subclass may be falsy (say, __len__ = its number of
+    entities of some kind): presence is tested with `is None`."""
+
+    def __len__(self):
+        return 0
+
+
+@desper.event_handler('on_quit', 'enter')
 class QuitListener:
     def __init__(self, envx, label):
         self.envx = envx
         self.label = label
+
+    def enter(self, action):
+        self.envx.entered.append((self.envx.frame_no, self.label))
+        if action == 'switch_quit_on_entry':
+            raise desper.Quit()
+        self.envx.boom = Boom('listener of the entered world failed')
+        raise self.envx.boom
 
     def on_quit(self):
         self.envx.quits.append((self.envx.frame_no, self.label))
@@ -143,7 +168,8 @@ def run_case(case):
     envx.handles = {}
     keep = []
     def build(label):
-        w = desper.World()
+        # the worlds of handle B are falsy World subclasses
+        w = FalsyWorld() if label[0] == 'B' else desper.World()
         for klass in (SP0, SP1, SP2):
             w.add_processor(klass(envx, label))
         q = QuitListener(envx, label)
@@ -171,7 +197,17 @@ def run_case(case):
     loop = desper.SimpleLoop(clock)
     envx.loop = loop
     old_default = desper.default_loop
-    desper.default_loop = loop
+    uses_default = any(f[2] == 'quit_loop_default'
+                       for frames in starts for f in frames)
+    if uses_default:
+        desper.default_loop = loop
+    else:
+        # the loop under test is not the default loop: quit_loop(world)
+        # names its world explicitly; the default loop runs a bystander
+        # world that must hear nothing
+        idle = desper.SimpleLoop(lambda: 0.0)
+        idle.switch(FixedHandle(build('Z'), lambda stars: build('Z' + stars)))
+        desper.default_loop = idle
     hits = {}
     calls = 0
     try:
@@ -185,10 +221,14 @@ def run_case(case):
             envx.readings = []
             envx.log = []
             envx.quits = []
+            envx.entered = []
             first_frame = envx.frame_no + 1
             feats = dict(start_index=min(si, 1),
                          after_exception=si > 0 and starts[si - 1][-1][2]
-                         in ('runtime', 'quit_loop_handler_raises'))
+                         in ('runtime', 'quit_loop_handler_raises',
+                             'switch_boom_on_entry'),
+                         after_quit_on_entry=si > 0 and starts[si - 1][-1][2]
+                         == 'switch_quit_on_entry')
             if si > 0:
                 hits['restart'] = 1
                 if feats['after_exception']:
@@ -198,7 +238,12 @@ def run_case(case):
                 loop.start()
                 outcome = 'returned'
             except Horizon:
-                raise HarnessError(f'script exhausted: {case}')
+                raise Violation(
+                    'one_clock_reading_per_iteration',
+                    f'start #{si} of {case}: the loop asked for more clock '
+                    f'readings than it ran frames (readings '
+                    f'{envx.readings}, frames run '
+                    f'{sorted({r[0] for r in envx.log})})', **feats)
             except Boom as exc:
                 outcome = exc
             except Exception as exc:
@@ -223,7 +268,8 @@ def run_case(case):
                 if action in ('quit_loop_world', 'quit_loop_default',
                               'quit_loop_handler_raises'):
                     want_quits.append((first_frame + fi, labels[current]))
-                if action in ('switch', 'loop_switch'):
+                if action in ('switch', 'loop_switch', 'switch_quit_on_entry',
+                              'switch_boom_on_entry'):
                     current = 'B' if current == 'A' else 'A'
                     hits[action] = 1
                     if current in cleared:
@@ -256,7 +302,17 @@ def run_case(case):
                                     f'loop.running = {g[4]!r} inside a frame',
                                     **feats)
             action = frames[-1][2]
-            if action in ('runtime', 'quit_loop_handler_raises'):
+            if action in ('switch_quit_on_entry', 'switch_boom_on_entry'):
+                want_entered = [(first_frame + len(frames) - 1,
+                                 labels[current])]
+                if envx.entered != want_entered:
+                    raise Violation(
+                        'entered_world_releases_its_events',
+                        f'start #{si} of {case}: the event held by the '
+                        f'world being entered reached {envx.entered}, '
+                        f'expected {want_entered}', **feats)
+            if action in ('runtime', 'quit_loop_handler_raises',
+                          'switch_boom_on_entry'):
                 hits[action] = 1
                 if outcome is not envx.boom:
                     raise Violation('other_exceptions_propagate_unchanged',
@@ -299,7 +355,9 @@ def frame_menu(terminating):
     for inc in INCS:
         if terminating:
             for action in TERM:
-                for pos in range(3):
+                # (the entry-time terminations from the middle position)
+                for pos in ((1,) if action.endswith('_on_entry')
+                            else range(3)):
                     out.append((inc, pos, action))
         else:
             out.append((inc, 0, 'nothing'))
@@ -358,7 +416,16 @@ def run(tier, rep):
         'statement and not checked',
         'which listeners of a frame that quit have still run is judged only '
         'through the processor ledger',
+        'switch_quit_on_entry / switch_boom_on_entry: the frame raises '
+        'SwitchWorld towards a world that holds an event whose listener '
+        'raises Quit / another exception when the loop releases it on '
+        'entering: start() returns / the exception propagates, the current '
+        'world is the one entered, and the next start begins with dt = 0',
+        'the worlds of handle B are falsy World subclasses; unless a frame '
+        'uses quit_loop() without argument, desper.default_loop is another, '
+        'idle loop whose world must never hear on_quit',
     ]
+    rep.require_hits(switch_quit_on_entry=1, switch_boom_on_entry=1)
     rep.require_hits(switch=1, loop_switch=1, restart=1, clear_handle=1,
                      quit_loop_handler_raises=1, clear_handle_hit=0,
                      restart_after_exception=1,
